@@ -205,6 +205,7 @@ type RunResult struct {
 	Initial  map[string]vkit.Digest
 	Pre      map[string]vkit.Digest
 	Post     map[string]vkit.Digest
+	Final    map[string]vkit.Digest // taken by the parent after the child exited
 	CleanOut string
 	Summary  *Summary
 	PreFiles map[string]map[string]string // root -> rel -> content right before Clean
@@ -290,6 +291,10 @@ func (p *Program) RunChild(o RunOpt) *RunResult {
 		return d
 	}
 	res.Pre, res.Post = readDig("pre"), readDig("post")
+	res.Final = map[string]vkit.Digest{}
+	for _, r := range o.Scenario.Roots {
+		res.Final[r] = vkit.TakeDigest(r)
+	}
 	res.PreFiles = map[string]map[string]string{}
 	for i, r := range o.Scenario.Roots {
 		m := map[string]string{}
